@@ -7,6 +7,9 @@ baseline = json.load(open('/root/.vp/BASELINE.json'))['cmd'] if os.path.exists('
 SIM = "deterministic simulation with fault injection (seeded schedules over real olric+memberlist+redcon+go-redis in one synctest bubble)"
 NOTE = "Trusts the simulator seams (simnet, simsync, fake clock) and that the mechanical source rewrite preserves olric's semantics; 1 P per run; sampling."
 claimed = {
+ "C20": dict(level="exploration", design="DESIGN.md §8 C20",
+   text="Seeded churn workloads (overwrite / delete / ttl expiry) over a fixed key set with tiny tables, short compaction and idle-table intervals, R 1-2; the simulated clock is then advanced until compaction settles and STATS is read from every member: in-use bytes equal the live (plus not-yet-evicted expired) entries on primaries and backups, per-fragment allocation and garbage stay within bounds derived from the 40 % threshold, allocation does not grow while idle.",
+   note=NOTE, technique=SIM + "; accounting and bound oracle over STATS after simulated settle time"),
  "C12": dict(level="exploration", design="DESIGN.md §8 C12",
    text="Seeded search: a history of inserts, overwrites, deletes and compaction/idle-table release shapes the tables, then complete iterations through EmbeddedDMap.Scan, ClusterDMap.Scan and raw DM.SCAN cursors per partition (primary and RC) with every COUNT class and MATCH patterns run while writers churn other keys and compaction runs; oracle: termination, every stable key yielded (once by iterators), nothing deleted-before or never-stored yielded, MATCH exact.",
    note=NOTE, technique=SIM + "; stable-set inclusion/exclusion oracle over concurrent iteration"),
